@@ -74,7 +74,9 @@ pub fn corpus(extras: bool, thorough: bool) -> Vec<G> {
             for (wi, (ws, _)) in wss.iter().enumerate() {
                 for (ci, c) in callers.iter().enumerate() {
                     // quick tier: a covering subset of the product
-                    if !thorough && !((wi <= 2 && ci <= 1) || (wi == 5 && ci == 0) || (ci >= 2 && wi == 1 && ti % 2 == 0) || (wi >= 6 && ci == 0 && (fi + ti) % 3 == 0)) {
+                    // thorough: the full product for the first 36 forms; the forms added later keep the
+                    // covering subset (the compiled corpus has to stay within what 8 parallel rustc can hold)
+                    if !(thorough && fi < 36) && !((wi <= 2 && ci <= 1) || (wi == 5 && ci == 0) || (ci >= 2 && wi == 1 && ti % 2 == 0) || (wi >= 6 && ci == 0 && (fi + ti) % 3 == 0)) {
                         continue;
                     }
                     push(format!("{ws}x = {{ \"a\" }} inner = {t1}{{ {f} }} r = {c}{{ inner ~ \"b\" }} outer = {{ r ~ inner? }}"), "operator-forms");
